@@ -1120,6 +1120,40 @@ func c07History(ctx *Ctx, i int) {
 	if !phase("writes", ctx.N(50, 120)) {
 		return
 	}
+	if os.Getenv("VERIF_C07_RACE") != "" {
+		// race lane: a run of commands that update collections in place, on four keys, while the
+		// background readers follow the key being applied on every node
+		db := 0
+		for k := 0; k < 160 && !h.bad; k++ {
+			var argv []string
+			switch k % 8 {
+			case 0:
+				argv = []string{"RPUSH", "race:l", fmt.Sprintf("e%d", k)}
+			case 1:
+				argv = []string{"LSET", "race:l", "0", fmt.Sprintf("x%d", k)}
+			case 2:
+				argv = []string{"SADD", "race:s", fmt.Sprintf("m%d", k)}
+			case 3:
+				argv = []string{"HSET", "race:h", fmt.Sprintf("f%d", k%24), fmt.Sprintf("v%d", k)}
+			case 4:
+				argv = []string{"ZADD", "race:z", strconv.Itoa(k), fmt.Sprintf("m%d", k%24)}
+			case 5:
+				argv = []string{"SREM", "race:s", fmt.Sprintf("m%d", k-3)}
+			case 6:
+				argv = []string{"HDEL", "race:h", fmt.Sprintf("f%d", (k+5)%24)}
+			case 7:
+				argv = []string{"ZINCRBY", "race:z", "1.5", fmt.Sprintf("m%d", (k+1)%24)}
+			}
+			st := Step{Argv: argv, DB: &db}
+			h.log("%s", st.String())
+			if res := h.sess.Exec(st); res.Vio != nil {
+				h.report(res.Vio)
+			}
+		}
+		if h.bad || !h.converge("race-burst") {
+			return
+		}
+	}
 	// explicit snapshot request on the leader
 	if restartLane || i%4 == 0 {
 		v, _, crash := c.leader().in.Do("SAVE")
